@@ -536,3 +536,47 @@ def subparser_facts(run, f):
                           "is made and whatever the previous one had already consumed from the buffer is forgotten, so the result depends on where "
                           "the input was split" % (unparse(n), callee)))
     return facts
+
+
+# --------------------------------------------------------------- C13.R5
+def limit_facts(run, f, buffers):
+    """Error decisions must be functions of the token, not of how much else is in the buffer.  In a find-based line parser the
+    position local P is -1 while no terminator is in the buffer.  A raising guard that reads len(<buffer>) is fragmentation
+    invariant only in the not-found context (inside `if P < 0:`), where the buffer is a prefix of the unfinished token; once the
+    terminator was found the buffer also holds whatever arrived behind it (body bytes, pipelined messages), so a guard on
+    len(<buffer>) there gives a different error state for one read and for many."""
+    facts = []
+    posvars = {n.targets[0].id for n in walk_local(f.node) if isinstance(n, ast.Assign) and isinstance(n.targets[0], ast.Name)
+               and isinstance(n.value, ast.UnaryOp) and isinstance(n.value.op, ast.USub) and getattr(n.value.operand, "value", None) == 1}
+
+    def notfound_test(t):
+        if isinstance(t, ast.Compare) and len(t.ops) == 1 and dotted(t.left) in posvars:
+            c = t.comparators[0]
+            if isinstance(t.ops[0], ast.Lt) and getattr(c, "value", None) == 0:
+                return True
+            if isinstance(t.ops[0], ast.Eq) and isinstance(c, ast.UnaryOp) and getattr(c.operand, "value", None) == 1:
+                return True
+        return False
+
+    guards = [n for n in walk_local(f.node) if isinstance(n, ast.If) and n.body and isinstance(n.body[-1], ast.Raise)]
+    if not posvars or not any(notfound_test(n.test) for n in walk_local(f.node) if isinstance(n, ast.If)):
+        if any("len(%s)" % b in unparse(g.test) for g in guards for b in buffers):
+            run.inconclusive_at("C13.R5", run.site(f), "raising guard on the buffer length but no `if <pos> < 0` not-found idiom recognised")
+        return facts
+    for g in guards:
+        reads_len = any(isinstance(c, ast.Call) and dotted(c.func) == "len" and c.args and dotted(c.args[0]) in buffers for c in ast.walk(g.test))
+        if not reads_len:
+            continue
+        ctx = "found"
+        p = parent(g)
+        cur = g
+        while p is not None and p is not f.node:
+            if isinstance(p, ast.If) and notfound_test(p.test) and any(in_subtree(g, b) for b in p.body):
+                ctx = "not-found"
+            cur, p = p, parent(p)
+        ok = ctx == "not-found"
+        facts.append(("limit-guard:%s" % ctx, ok, run.site(f, g),
+                      "" if ok else "`if %s: raise ...` is evaluated after a terminator was found: the buffer length then counts bytes that follow the line "
+                      "(body, pipelined messages), so the same message is rejected when it arrives in one read and accepted when it arrives in "
+                      "small reads; the limit must be applied to the found position" % unparse(g.test)))
+    return facts
